@@ -93,7 +93,7 @@ type l2Case struct {
 // logger.Fatalf("wrong data file size ..."), so a history must not issue writes in that state; the generator ends
 // its write phase there and the closing sweep (reads, restart, reads) still runs.
 func spilledPastHead(d *l2dir, head int) bool {
-	if d == nil {
+	if d == nil || os.Getenv("VERIF_F24_CONTINUE") != "" { // the variable lets the generator run into the abort (demonstration, tests of the abort capture)
 		return false
 	}
 	for _, f := range d.Data {
